@@ -257,8 +257,12 @@ def finish(pid, level, theorems, proof, corr, t0, build_res, extra_trusted=(), a
     ev = {"property_id": pid, "tier": tr, "seed": sd, "level": level, "coverage": cov,
           "assumptions": list(assumptions), "wall_s": round(time.time() - t0, 2), "violations": nviol}
     json.dump(ev, open(os.path.join(VERIF, "evidence", pid + ".json"), "w"), indent=1, default=str)
+    # the implementation writes coloured error messages to stderr whose reset code comes after the newline; when the two
+    # streams are merged that code would sit in front of the next line: end it on a line of its own
+    sys.stdout.flush(); sys.stderr.write("\n"); sys.stderr.flush()
     for l in lines:
         print(l)
+    sys.stdout.flush()
     print("%s: tier=%s seed=%d proofs %d/%d, %d evaluations (%d distinct non-trivial), %d model/impl disagreements, %d predicate failures, %.1fs"
           % (pid, tr, sd, proof["discharged"], proof["obligations"], cov["evaluations"], cov["distinct_nontrivial"], len(other), len(pred), time.time() - t0))
     return 1 if nviol else 0
